@@ -23,7 +23,7 @@ A script (JSON, also the replay format):
              {"at": t, "do": "inject", ...cluster.inject kwargs} | {"at": t, "do": "move_leader", ...} |
              {"at": t, "do": "kill_broker", "node_id": n} | {"at": t, "do": "start_broker", "node_id": n} |
              {"at": t, "do": "restart_broker", "node_id": n[, "host": h, "port": p]}   (a new address: only metadata names it) |
-             {"at": t, "do": "shift_leader", "topic": "t0", "partition": p|null, "by": k, "old": "not_leader"|"unknown"} |
+             {"at": t, "do": "shift_leader", "topic": "t0", "partition": p|null, "by": k|null (no leader), "old": "not_leader"|"unknown"} |
              {"at": t, "do": "set", "broker": n, "attr": a, "value": v} | {"at": t, "do": "heal_silence", "node_id": n}],
    "until": T}
 A step with "settle": false is followed by the next step BEFORE any byte moves (a request written by the client has not
@@ -133,7 +133,7 @@ def gen_script(rng, pid):
             steps.append({"at": ft, "do": "inject", "action": "error", "api": "Produce", "topic": topic, "partition": part,
                           "code": rng.choice([6, 19, 7, 10]), "times": None})
         elif style == "transport":
-            act = rng.choice(["drop_before", "drop_after", "silent", "delay", "unreachable", "unreachable"])
+            act = rng.choice(["drop_before", "drop_after", "drop_mid", "silent", "delay", "unreachable", "unreachable"])
             if act == "unreachable":
                 node = rng.randrange(1, brokers + 1)
                 steps.append({"at": ft, "do": "set", "broker": node, "attr": "mode", "value": rng.choice(["blackhole", "refuse"])})
@@ -143,17 +143,21 @@ def gen_script(rng, pid):
                 st = {"at": ft, "do": "inject", "action": act, "api": "Produce", "topic": topic, "times": rng.choice([1, 1, 2])}
                 if act == "delay":
                     st["seconds"] = rng.choice([0.5, 2, 20])
+                if act == "drop_mid":  # the messages are appended, part of the answer is written, the connection is cut
+                    st["fraction"] = rng.choice([0.1, 0.5, 0.9])
                 steps.append(st)
         elif style == "broker":
             node = rng.randrange(1, brokers + 1)
-            act = rng.choice(["silent", "silent", "drop_after", "delay", "hung", "cutoff", "cutoff", "cutoff", "down"])
-            if act in ("silent", "drop_after", "delay"):
+            act = rng.choice(["silent", "silent", "drop_after", "drop_mid", "delay", "hung", "cutoff", "cutoff", "cutoff", "down"])
+            if act in ("silent", "drop_after", "drop_mid", "delay"):
                 # (a connection dropped on EVERY request would be re-made and the request re-sent for ever at one
                 # virtual instant - the network has no latency here: only finitely many drops)
                 st = {"at": ft, "do": "inject", "action": act, "api": "Produce", "broker": node,
-                      "times": rng.choice([1, 1, 2, 3, None] if act != "drop_after" else [1, 1, 2, 3])}
+                      "times": rng.choice([1, 1, 2, 3, None] if act not in ("drop_after", "drop_mid") else [1, 1, 2, 3])}
                 if act == "delay":
                     st["seconds"] = rng.choice([0.5, 3, 20])
+                if act == "drop_mid":
+                    st["nbytes"] = rng.choice([1, 4, 7, 12, 30])
                 steps.append(st)
             elif act == "hung":
                 steps.append({"at": ft, "do": "set", "broker": node, "attr": "silent", "value": True})
@@ -224,6 +228,17 @@ def gen_situations(rng, steps, brokers, topics, client, prod):
                 steps.insert(steps.index(st) + 1, mv)
             else:
                 steps.append(mv)
+    # (a') a partition is WITHOUT a leader for a while (election under way): the former leader refuses, the metadata
+    # names no leader, the client fails the whole call (LeaderUnavailableError) - until a leader is elected
+    if rng.random() < 0.12:
+        st, at = near_send()
+        topic = st["topic"]
+        part = rng.choice([None, rng.randrange(topics[topic])])
+        steps.append({"at": at, "do": "shift_leader", "topic": topic, "partition": part, "by": None,
+                      "old": rng.choice(["not_leader", "not_leader", "unknown"])})
+        if rng.random() < 0.8:
+            steps.append({"at": round(at + rng.choice([0.1, 0.3, 1, 3, 10]), 3), "do": "shift_leader", "topic": topic, "partition": part,
+                          "by": rng.randrange(0, brokers), "old": "not_leader"})
     # (b) a broker is restarted at another address (same node id): only the metadata names the new one
     if rng.random() < 0.15:
         node = rng.randrange(1, brokers + 1)
@@ -380,7 +395,10 @@ def run_script(script, trace=False):
                         if producer._batch_send_d is not None else []
                     for p_ in parts:
                         cur = cluster.leader_of(st["topic"], p_)
-                        new = ids[(ids.index(cur) + st["by"]) % len(ids)] if cur in ids else ids[st["by"] % len(ids)]
+                        if st["by"] is None:
+                            new = -1  # no leader
+                        else:
+                            new = ids[(ids.index(cur) + st["by"]) % len(ids)] if cur in ids else ids[st["by"] % len(ids)]
                         cluster.move_leader(st["topic"], p_, new, old=st.get("old", "not_leader"))
                     r.moves.append({"n": cluster._seq, "topic": st["topic"], "parts": parts, "inflight": inflight,
                                     "open_corrs": [q["corr"] for call in r.tracer.client.calls for q in call.reqs if q["out"] is None]
@@ -428,10 +446,13 @@ def run_script(script, trace=False):
     # (faults under which a request handed to a connection may never be seen by a broker: the connection is cut;
     # a broker that merely refuses / never completes NEW connections, or hangs, is not one of them)
     r.transport_faults = any(st["do"] in ("kill_broker", "move_leader", "restart_broker", "shift_leader")
-                             or st.get("action") in ("drop_before", "drop_after", "silent", "delay") for st in script["steps"])
+                             or st.get("action") in ("drop_before", "drop_after", "drop_mid", "silent", "delay") for st in script["steps"])
     # (... or the broker itself cut it: a produce request with acks=0 that fails cannot be answered, the broker closes
     # the connection instead - and with it go the requests written behind it at the same instant)
     r.transport_faults = r.transport_faults or any(e.get("fate") == "closed-acks0-error" for e in cluster.requests(api="Produce"))
+    # (... or the client cuts it itself: with disconnect_on_timeout a request that times out - of any kind - takes the
+    # connection down, and the acks=0 produce request just written to it)
+    r.transport_faults = r.transport_faults or bool(script.get("client", {}).get("disconnect_on_timeout"))
     return r
 
 
@@ -730,6 +751,24 @@ def situations(r, hist):
                 hist["fs:%s-then-success-elsewhere:batch-in-flight-when-leader-moved" % code] += 1
             if any(e["corr"] in m["open_corrs"] for m in mv for e, _a in refused):
                 hist["fs:%s-then-success-elsewhere:request-on-the-wire-when-leader-moved" % code] += 1
+    # ---- (a') the client fails a whole call (nothing sent) - by kind; a leaderless partition that is acknowledged later
+    if r.tracer is not None:
+        from harness.lib import producer_drive as D
+
+        lu = []
+        for call in r.tracer.client.calls:
+            if call.result is not None and call.result[0] == "err" and not call.reqs:
+                hist["fs:client-call-failed-wholly-nothing-sent:" + str(call.result[1])] += 1
+                if call.result[1] == "lu":
+                    lu.append(call)
+        if lu:
+            for sid in sorted(ok_sids):
+                o = r.outcomes[sid][0]
+                res = o[3]
+                if isinstance(res, (tuple, list)) and res[0] == "ProduceResponse":
+                    key = (D.topic_index(res[1]), res[2])
+                    if any(key in c.keys and r.sends[sid]["t"] <= getattr(c, "t0", -1) <= o[0] for c in lu):
+                        hist["fs:leader-unavailable-then-acknowledged"] += 1
     # ---- (b) a broker at a new address
     first_addr = {}
     new_addrs = set()
@@ -781,6 +820,8 @@ def situations(r, hist):
                     hist["fs:produce-reply-delivered-after-request-ended:" + str(q["out"][1])] += 1
         elif e.get("fate") == "conn-closed" and e.get("response") is not None:
             hist["fs:produce-reply-late-but-connection-closed"] += 1
+        elif e.get("fate") == "dropped-mid":
+            hist["fs:produce-reply-cut-mid-frame"] += 1
     for e, _parts in reqs:
         if any(a.get("op") == "append" and a["error"] != 0 and a["messages"] for a in e.get("applied", [])) and e.get("fate") == "answered":
             hist["fs:produce-error-reported-after-append"] += 1
